@@ -156,6 +156,10 @@ func genSocks(tier string, yield func(Case) bool) bool {
 		{`{"ports":[80,443]}`, []byte{1, 2}, []uint16{80, 443}, nil},
 		{`{"networks":["10.0.0.0/8","192.168.1.1"]}`, []byte{1, 2}, nil, []string{"10.0.0.0/8", "192.168.1.1/32"}},
 		{`{"commands":["CONNECT"],"ports":[65535],"networks":["0.0.0.0/0"]}`, []byte{1}, []uint16{65535}, []string{"0.0.0.0/0"}},
+		// a filter that no SOCKS4 destination (always IPv4) can satisfy is still a filter
+		{`{"networks":["::1"]}`, []byte{1, 2}, nil, []string{"::1/128"}},
+		{`{"networks":["fc00::/7","::/0"]}`, []byte{1, 2}, nil, []string{"fc00::/7", "::/0"}},
+		{`{"networks":["2001:db8::/32","10.0.0.0/8"]}`, []byte{1, 2}, nil, []string{"2001:db8::/32", "10.0.0.0/8"}},
 	}
 	for _, c := range cfgs {
 		for _, ver := range []byte{4, 5, 0} {
@@ -182,7 +186,8 @@ func genSocks(tier string, yield func(Case) bool) bool {
 							ok = false
 							for _, n := range c.nets {
 								_, nn, _ := net.ParseCIDR(n)
-								ok = ok || nn.Contains(net.ParseIP(ip))
+								// an IPv4 destination is in an IPv4 range only (no v4-mapped matching)
+								ok = ok || (nn.IP.To4() != nil && nn.Contains(net.ParseIP(ip)))
 							}
 							want = want && ok
 						}
